@@ -35,6 +35,12 @@
      (`#t #f #nil #( #u8 #vu8 #\ #x #b #o #d`, junk) consults no option at all;
    * `C08_number_delimited`: whenever ANY token is read as a number the reader has stopped at the end of the
      input or in front of a delimiter — a token is a number only as a whole.
+   * `C08_number_whole_token` (LexprModel/Spec/NumericLiteral.lean, Proofs/NumberWhole*.lean; imported here):
+     whenever a token is read as a number, the bytes consumed are exactly a numeric literal of the C05 grammar
+     (`numericLiteralShape`, a small decidable recogniser) and the reader stopped at the end of the input or in
+     front of a delimiter — the clause "a token is read as a number only if the whole token is a numeric
+     literal" in full, for every option set (the leading-digit path through `wholeNumber` included), both
+     builds, all sources.
   The frame clause for whole inputs (LexprModel/Spec/Exercised.lean, Proofs/FrameTok.lean, Frame.lean, DepthInd.lean,
   ScanBase.lean, FrameScan.lean; imported here): `tokenOpts` names, per token, the options its reading may
   consult; `exercised cfg mode bytes` collects them over one flat scan of the input; **`C08_frame`** — two
@@ -49,6 +55,7 @@ import LexprModel.Proofs.Tokens
 import LexprModel.Proofs.Builder
 import LexprModel.Proofs.FrameScan
 import LexprModel.Proofs.NumberEnd
+import LexprModel.Proofs.NumberWhole
 namespace Lexpr
 namespace Parse
 
